@@ -109,6 +109,9 @@ def lenforms(L):
     alts.append(("88max", b"\x88" + b"\xff" * 8))
     alts.append(("88zeros", b"\x88" + b"\x00" * 7 + bytes([L & 0xFF])))
     alts.append(("89", b"\x89" + b"\x00" * 8 + bytes([L & 0xFF])))
+    # more than sizeof(size_t) length octets whose value wraps (mod 2^64) to the real length
+    alts.append(("89wrap", b"\x89\x01" + L.to_bytes(8, "big")))
+    alts.append(("8cwrap", b"\x8c\x00\x00\x00\x01" + L.to_bytes(8, "big")))
     alts.append(("trunc", b""))
     return alts
 
@@ -124,7 +127,7 @@ def der_cases(maxdev):
     dflt_r = R0.to_bytes(21, "big")
     dflt_s = S0.to_bytes(32, "big")
     npos = 9
-    alts = [4, 11, 4, 11, len(conts), 4, 11, len(conts), 3]
+    alts = [4, 13, 4, 13, len(conts), 4, 13, len(conts), 3]
     out = []
     for k in range(0, maxdev + 1):
         for pos in itertools.combinations(range(npos), k):
@@ -597,7 +600,7 @@ def main():
         first = cfg == prods[0]
         g = gram if first else der_cases(3 if thorough else 2)
         run_phase(run, "%s/der-grammar" % cfg, der_grammar_case, chunks(g, 200), setup=setup(cfg),
-                  rule="DER strings generated from the grammar SEQ(tag,lenform){INT(tag,lenform,content)x2}+trailing with <= %d simultaneous deviations over 9 positions (5 tags, 12 length forms, %d integer contents, 4 trailing variants); strict-DER reference reader decides accept/(r,s); accepted strings re-serialised, verified object bytes, lax parser cross-checked; rejected ones must leave an object that does not verify" % (maxdev if first else (3 if thorough else 2), len(int_contents())),
+                  rule="DER strings generated from the grammar SEQ(tag,lenform){INT(tag,lenform,content)x2}+trailing with <= %d simultaneous deviations over 9 positions (5 tags, 14 length forms, %d integer contents, 4 trailing variants); strict-DER reference reader decides accept/(r,s); accepted strings re-serialised, verified object bytes, lax parser cross-checked; rejected ones must leave an object that does not verify" % (maxdev if first else (3 if thorough else 2), len(int_contents())),
                   extra={"bounds": {"max_deviations": maxdev}})
         # total short strings
         full_len = 3 if thorough and first else 2
